@@ -124,6 +124,27 @@ def check_bezier(name, rot, scale, acc):
     check_box(seg, tb, 1e-9 * size, case, acc, {'kind': kind, 'degenerate': degenerate})
 
 
+INT_SHAPES = {
+    'L_int': (2, 9), 'Q_int': (0, 7, 3), 'Q_int_overshoot': (5, -6, 5), 'C_int': (0, 30, 60, 91), 'C_int_wiggle': (0, 50, -40, 10),
+    # the same wiggle with integers that need more than 32 bits (their squares more than 64)
+    'C_int_huge': (0, 5 * 10 ** 9, -4 * 10 ** 9, 10 ** 9), 'Q_int_huge': (7 * 10 ** 9, -6 * 10 ** 9, 7 * 10 ** 9),
+    'C_int_2pow62': (0, 2 ** 62, -2 ** 62, 2 ** 61), 'C_mixed_int_float': (0, 5 * 10 ** 9, -4.0e9, 10 ** 9),
+}
+
+
+def check_int_bezier(name, acc):
+    """control points given as plain Python ints (a curve on the real axis), small and beyond 32 / 64 bits"""
+    pts = INT_SHAPES[name]
+    cls_ = {2: Line, 3: QuadraticBezier, 4: CubicBezier}[len(pts)]
+    seg = cls_(*pts)
+    tb = bezier_true_box(list(pts))
+    size = float(max(abs(p) for p in pts)) + 1e-300
+    kind = cls_.__name__[0]
+    case = {'what': 'int_bezier', 'shape': name}
+    acc.case(case, cls='int_control_points/%s' % kind)
+    check_box(seg, tb, 1e-9 * size, case, acc, {'kind': kind, 'degenerate': 'int_control_points'})
+
+
 def arc_grid(tier):
     radii = [(2.0, 2.0), (3.0, 1.0), (100.0, 1.0)]
     phis = [0, 90, 30, -45, 123.4, 400, -725, 180, 270]
@@ -207,7 +228,7 @@ def shards(tier, seed):
     out += [{'what': 'bezier', 'shape': n} for n in list(AB.LINES) + list(AB.QUADS) + list(AB.CUBICS)]
     out += [{'what': 'elevated', 'k': k} for k in range(4)]
     out += [{'what': 'arcs', 'k': k} for k in range(8)]
-    out += [{'what': 'libarcs'}, {'what': 'paths'}]
+    out += [{'what': 'libarcs'}, {'what': 'paths'}, {'what': 'int_beziers'}, {'what': 'negative_radius_arcs'}]
     return out
 
 
@@ -254,6 +275,15 @@ def run_shard(desc, tier, seed):
                 continue
             spec = arc_from_center(*g)
             check_arc(spec, {'what': 'arc', 'grid': list(g)}, acc)
+    elif desc['what'] == 'int_beziers':
+        for n in INT_SHAPES:
+            check_int_bezier(n, acc)
+    elif desc['what'] == 'negative_radius_arcs':
+        # radii may be given with either sign (only their magnitudes matter): each sign pattern, rotated and not
+        for rx, ry in ((-60.0, 25.0), (60.0, -25.0), (-60.0, -25.0), (60.0, 25.0), (-3.0, 1.0)):
+            for rot in (30.0, 0.0, 90.0, -45.0, 123.4):
+                for la, sw in ((0, 0), (0, 1), (1, 0), (1, 1)):
+                    check_arc((0j, complex(rx, ry), rot, la, sw, 40 + 30j), {'what': 'negarc', 'radius': [rx, ry], 'rot': rot, 'flags': [la, sw]}, acc)
     elif desc['what'] == 'libarcs':
         for n in AB.ARCS:
             for rot in ROTS:
@@ -276,7 +306,7 @@ def expected_classes(tier):
     return ['C/regular/interior_extremum', 'C/denom_zero/interior_extremum', 'C/regular/endpoints_only',
             'Q/regular/interior_extremum', 'L/regular/endpoints_only', 'elevated/denom_tiny/interior_extremum',
             'elevated/denom_zero/interior_extremum', 'A/crit0/rotated', 'A/crit1/rotated', 'A/crit2/rotated',
-            'A/crit3/rotated', 'A/crit4/rotated', 'A/crit4/axis_aligned', 'path', 'long/ge128', 'long/lt128']
+            'A/crit3/rotated', 'A/crit4/rotated', 'A/crit4/axis_aligned', 'path', 'long/ge128', 'long/lt128', 'int_control_points/C', 'int_control_points/Q']
 
 
 def space(tier, seed):
@@ -289,7 +319,11 @@ def space(tier, seed):
 def replay(case):
     acc = core.ReplayAcc()
     w = case['what']
-    if w == 'long':
+    if w == 'int_bezier':
+        check_int_bezier(case['shape'], acc)
+    elif w == 'negarc':
+        check_arc((0j, complex(*case['radius']), case['rot'], case['flags'][0], case['flags'][1], 40 + 30j), case, acc)
+    elif w == 'long':
         check_long(case['n'], case['kinds'], case['variant'], acc)
     elif w == 'bezier':
         check_bezier(case['shape'], case['rot'], case['scale'], acc)
